@@ -407,6 +407,15 @@ let () =
                  | None -> pr "O ?unparsed %s\n" line
                  | Some o ->
                      let (b', out) = step b o in
+                     (* run-time cross-check of the two models: the arena-level mutators of
+                        Rust/HeapOps.v applied to the layout of b must give the layout of b' *)
+                     let ab_ok = (match mut_A (flatten b) o with
+                       | None -> true
+                       | Some (Ok (h', out')) -> h' = flatten b' && out' = out
+                       | Some (Panic _) -> out = UPanic
+                       | Some OutOfFuel -> out = UFuel
+                       | Some (UB _) -> out = UUB) in
+                     if not ab_ok then pr "O MODEL-A/B-DISAGREE\n";
                      pr "O %s\n" (s_out out);
                      (match out with
                       | UPanic | UFuel | UUB -> state := Dead
